@@ -4,6 +4,7 @@ import (
 	"bytes"
 	"fmt"
 	"math/big"
+	"strings"
 	"testing"
 
 	sdkmath "cosmossdk.io/math"
@@ -325,7 +326,22 @@ func runC09(c c09Case, rec *ev.Recorder) *Failure {
 				return failf("C09/projection-op-fails", "%s gas %d: op %d of the kept part fails when run alone\ntree:\n%s\nkept part:\n%s", label, gas, i, s.String(), p.String()), r, outs
 			}
 		}
-		if d := sim.DiffString(sim.Diff(f.DumpStores(projCtx), got), 10); d != "" {
+		if entries := sim.Diff(f.DumpStores(projCtx), got); len(entries) != 0 {
+			d := sim.DiffString(entries, 10)
+			// A difference confined to the storage of the token that crosschain precompile calls convert, in a
+			// transaction that contains such calls, is the nested-EVM overlap recorded under C08: conversions run
+			// in a nested EVM execution on the Cosmos-side state while the calling EVM still holds slots of the
+			// token it touched earlier (here: in a frame that was dropped).
+			tokenOnly := c09Has(c.Root, "pre", "crosschain.")
+			tokenPrefix := append([]byte{0x02}, f.Token("USDT").ERC20.Bytes()...)
+			for _, en := range entries {
+				if en.Store != "evm" || !bytes.HasPrefix(en.Key, tokenPrefix) {
+					tokenOnly = false
+				}
+			}
+			if tokenOnly {
+				return failf("C09/nested-evm-overlap/token-storage-only", "%s gas %d: token storage differs between the transaction and its kept frames run alone (kept-only -> actual):\n%s\ntree:\n%s\nkept part:\n%s", label, gas, d, s.String(), p.String()), r, outs
+			}
 			return failf("C09/dropped-frame-left-effects", "%s gas %d: the state after the transaction differs from the state after running only the frames the EVM kept (kept-only -> actual):\n%s\ntree:\n%s\nkept part:\n%s", label, gas, d, s.String(), p.String()), r, outs
 		}
 		if a, b := c09Logs(r), c09Logs(pr); a != b {
@@ -334,6 +350,15 @@ func runC09(c c09Case, rec *ev.Recorder) *Failure {
 		return nil, r, outs
 	}
 	fl, r0, outs0 := check(8_000_000, "ample")
+	tolerate := func(fl *Failure) *Failure {
+		if fl != nil && fl.Sig == "C09/nested-evm-overlap/token-storage-only" && isKnown(fl.Sig) {
+			rec.KnownFinding(fl.Sig, fl.Msg)
+			rec.Exclude("difference confined to the converted token's storage in a transaction with crosschain precompile calls (known finding)")
+			return nil
+		}
+		return fl
+	}
+	fl = tolerate(fl)
 	if fl != nil {
 		return fl
 	}
@@ -344,14 +369,16 @@ func runC09(c c09Case, rec *ev.Recorder) *Failure {
 	cut := 0
 	for _, pm := range c.GasPoints {
 		g := used * uint64(pm) / 1000
-		if fl, r, _ := check(g, "fault"); fl != nil {
+		fl, r, _ := check(g, "fault")
+		if fl = tolerate(fl); fl != nil {
 			return fl
 		} else if r.Resp != nil && !r.Success() {
 			cut++
 		}
 	}
 	for _, g := range c.Absolute {
-		if fl, _, _ := check(g, "fault"); fl != nil {
+		fl, _, _ := check(g, "fault")
+		if fl = tolerate(fl); fl != nil {
 			return fl
 		}
 	}
@@ -369,6 +396,19 @@ func runC09(c c09Case, rec *ev.Recorder) *Failure {
 		rec.Sample(map[string]interface{}{"tree": shape, "gas_used_ample": used, "case": c})
 	}
 	return nil
+}
+
+// c09Has reports whether the tree contains a node of the kind (and, for precompile calls, method prefix).
+func c09Has(fr c09Frame, kind, methodPrefix string) bool {
+	for _, nd := range fr.Ops {
+		if nd.Kind == kind && strings.HasPrefix(nd.Method, methodPrefix) {
+			return true
+		}
+		if nd.Sub != nil && c09Has(*nd.Sub, kind, methodPrefix) {
+			return true
+		}
+	}
+	return false
 }
 
 func respErr(r sim.EthTxResult) string {
